@@ -12,7 +12,7 @@ OPTIMIZED = ['reject']   # clauses run a second time under `python -O` (assert s
 RULE = ("masters from the scalar mixture (constructed and parsed from the reference xprv); indexes {0,1,2^31-1} and "
         "uniform; application parameters enumerated exhaustively (5 word counts, 49 byte counts, 67 password lengths); "
         "oracle = independent BIP85 on own BIP32; the index list actually derived is recorded by a subclassing wrapper")
-ASSUMPTIONS = ["only int parameters are generated (the statement is about values, not types)",
+ASSUMPTIONS = ["application parameters are ints; indexes are ints plus numbers that are not integers (floats, Decimal, Fraction), which are outside every allowed set as values",
                "BIP39 language is English (path component 0'), the only one the library offers"]
 H, N = S.H, S.N
 WORDS = [12, 15, 18, 21, 24]
@@ -160,7 +160,12 @@ BAD = {
     "hex": [15, 65, 0, 1, -16, -32, 32 + H, 64 + 2 ** 32, 128],
     "pwd": [19, 87, 0, 1, -20, -21, 21 + H, 86 + 2 ** 32, 100],
 }
+import decimal
+import fractions
 BAD_INDEX = [-1, -2, -H, -H - 1, H, H + 1, 2 ** 32 - 1, 2 ** 32, 2 ** 32 + 1, -2 ** 32, 2 ** 64]
+# numbers that are not integers are outside every allowed set as well (values, not types: 1.5 is not an index)
+NON_INTEGRAL = [-0.5, -0.999, 0.5, 1.5, 7.9, float(H) - 0.5, float(H) + 0.5, decimal.Decimal("7.9"), decimal.Decimal("-0.5"),
+                fractions.Fraction(3, 2)]
 
 
 def enum_reject(tier):
@@ -173,6 +178,8 @@ def enum_reject(tier):
         for index in BAD_INDEX:
             for param in (params[0], params[-1]):
                 yield {"app": app, "param": param, "index": index, "k": k, "c": c, "what": "index"}
+        for j in range(len(NON_INTEGRAL)):
+            yield {"app": app, "param": params[0], "index": 0, "nonint": j, "k": k, "c": c, "what": "index"}
 
 
 def gen_reject(tier):
@@ -194,7 +201,9 @@ def param_ok(app, param):
 
 def check_reject(case, ctx):
     app, param, index = case["app"], case["param"], case["index"]
-    if param_ok(app, param) and 0 <= index < H:
+    if case.get("nonint") is not None:
+        index = NON_INTEGRAL[case["nonint"]]
+    elif param_ok(app, param) and 0 <= index < H:
         ctx.count("generated-valid-skipped")
         return
     rm, b, log = make_b85(dict(case, route="direct"), ctx)
@@ -317,6 +326,52 @@ def check_threads(case, ctx):
                                 "index=%d) = %r, BIP85 defines %r" % (len(case["threads"]), app, param, index, results[t][j], want))
 
 
+DEFAULTS = {"mnemonic": 24, "hex": 32, "pwd": 21}
+
+
+def enum_keywords(tier):
+    for mi in range(2):
+        for app, params in (("hex", [16, 20, 32, 33, 40, 64]), ("pwd", [20, 21, 33, 40, 86]), ("mnemonic", [12, 15, 18, 21, 24])):
+            for v in params:
+                yield {"m": mi, "app": app, "v": v}
+        for v in (0, 1, 7):
+            yield {"m": mi, "app": "wif", "v": v}
+            yield {"m": mi, "app": "xprv", "v": v}
+
+
+def check_keywords(case, ctx):
+    """Partial-keyword calls that rely on the documented defaults, on ONE object, in both roles and orders."""
+    Prv, B85, BaseWallet, PaperWallet = _impl()
+    k, c = MASTERS[case["m"]]
+    rm = R.Node.from_priv(k, c)
+    b = B85(master_node=Prv(key=k.to_bytes(32, "big"), chain_code=c))
+    app, v = case["app"], case["v"]
+    meth = {"mnemonic": b.bip39_mnemonic, "hex": b.hex, "pwd": b.pwd, "wif": b.wif, "xprv": b.xprv}[app]
+    pname = {"mnemonic": "word_count", "hex": "num_bytes", "pwd": "pwd_len"}.get(app)
+    calls = []
+    if pname:
+        d = DEFAULTS[app]
+        calls = [("%s(%s=%d)" % (app, pname, v), lambda: meth(**{pname: v}), (app, v, 0)),
+                 ("%s(index=%d)" % (app, v), lambda: meth(index=v), (app, d, v)),
+                 ("%s(index=%d, %s=%d)" % (app, v, pname, d), lambda: meth(**{"index": v, pname: d}), (app, d, v)),
+                 ("%s(%s=%d, index=%d)" % (app, pname, v, d), lambda: meth(**{pname: v, "index": d}), (app, v, d)),
+                 ("%s(index=%d, %s=%d)" % (app, d, pname, v), lambda: meth(**{"index": d, pname: v}), (app, v, d)),
+                 ("%s(%d)" % (app, v), lambda: meth(v), (app, v, 0)),
+                 ("%s()" % app, lambda: meth(), (app, d, 0))]
+    else:
+        calls = [("%s(index=%d)" % (app, v), lambda: meth(index=v), (app, None, v)), ("%s(%d)" % (app, v), lambda: meth(v), (app, None, v)),
+                 ("%s()" % app, lambda: meth(), (app, None, 0))]
+    for what, f, (a_, p_, i_) in calls:
+        try:
+            want, _ = app_expect(rm, a_, p_, i_)
+        except R.Invalid:
+            continue
+        st_, got = call(f)
+        if st_ == "exc" or got != want:
+            raise Violation("C12/keywords/value-differs[%s]" % app, "bip85 %s on a shared object = %r, BIP85 defines %r for "
+                            "(param=%r, index=%d)" % (what, got, want, p_, i_))
+
+
 def clauses():
     return [
         Clause("apps", check_app,
@@ -335,6 +390,12 @@ def clauses():
                enum=enum_reject, gen=gen_reject, classes=lambda c: [c["app"] + ":" + c["what"]],
                enum_desc="listed bad parameters x 3 indexes, 11 bad indexes x 5 apps x 2 parameters",
                n={"quick": 800, "thorough": 60000}, shards={"quick": 16, "thorough": 16}),
+        Clause("defaults-and-keywords", check_keywords,
+               "one BIP85 object, partial-keyword calls relying on the documented defaults (parameter only / index only), "
+               "both keyword orders, positional and bare calls, with values that are valid in either role (e.g. 40 as "
+               "byte count and as index)", enum=enum_keywords, exhaustive=True,
+               enum_desc="2 masters x (6 hex + 5 pwd + 5 mnemonic values + 3 wif/xprv indexes) x 3-7 call styles",
+               shards={"quick": 8, "thorough": 8}),
         Clause("shared-object-threads", check_threads,
                "2..3 threads issue 1..2 application requests each on ONE BIP85 object (after 0..2 warm-up requests) under "
                "the deterministic line-granularity scheduler; every answer must equal independent BIP85; non-trivial = "
